@@ -15,7 +15,7 @@ ASSUMPTIONS = [
     "Float model vs numpy: 1e-9 of the amplitude scale",
 ]
 
-RULE = ("seeded random 1D spectra and 2D spectra with all energy in one direction bin (any bin), some with energy beyond fs/2, sampling rates 0.3..12 Hz (incl. 3, 7, 0.7), seeds incl. 0, even and odd "
+RULE = ("seeded random 1D spectra (a quarter with missing bins) and 2D spectra with all energy in one direction bin (any bin; uniform and non-uniform direction grids), energy levels 1 .. 1e-10, some with energy beyond fs/2, sampling rates 0.3..12 Hz (incl. 3, 7, 0.7), seeds incl. 0, even and odd "
         "signal lengths 8..2000 (20000 thorough), all six components, seeds; one case = one (spectrum, component, length, seed); "
         "non-trivial if the resampled spectrum has energy in at least 3 bins")
 
@@ -33,28 +33,46 @@ def run_case(run, drv, ts_mod, rng, case, max_len):
     run.count("energy_beyond_nyquist" if top > 0.5 * fs else "energy_below_nyquist")
     if len(f) < 3:
         return
-    e1 = np.array([rng.uniform(0.1, 2.0) for _ in f])
+    # metre-scale seas down to capillary ripples: nothing in the property depends on the absolute level
+    level = rng.choice([1.0, 1.0, 1.0, 1e-3, 1e-6, 1e-10])
+    run.count(f"level_{level:g}")
+    e1 = np.array([rng.uniform(0.1, 2.0) for _ in f]) * level
+    # missing bins in the input (1D): the series is that of the resampled spectrum, missing values counting as no energy
+    with_nan = (not two_d) and len(f) >= 5 and rng.random() < 0.25
+    if with_nan:
+        for _ in range(rng.choice([1, 2])):
+            e1[rng.randrange(len(f))] = np.nan
+        run.count("input_with_missing_bins")
     with warnings.catch_warnings():
         warnings.simplefilter("ignore")
         if two_d:
             nd = rng.choice([8, 12, 36])
             d = 360.0 / nd * np.arange(nd)
+            if rng.random() < 0.4:
+                # non-uniform direction grid (fine bins in one sector): the bin area is the spectrum's own
+                w = np.array([rng.choice([1, 1, 2, 4]) for _ in range(nd)], dtype=float)
+                d = np.concatenate([[0.0], np.cumsum(w / w.sum() * 360.0)[:-1]])
+                run.count("directions_nonuniform")
             j = rng.randrange(nd)
+            probe, _ = sp.make_2d(rng, layout="scalar", f=f, d=d, E=np.zeros((len(f), nd)), depth_mode="deep")
+            step = probe.direction_step.values
             E = np.zeros((len(f), nd))
-            E[:, j] = e1 / (360.0 / nd)
+            E[:, j] = e1 / step[j]
             spec, meta = sp.make_2d(rng, layout="scalar", f=f, d=d, E=E, depth_mode="deep")
             theta = math.radians(d[j])
         else:
             mom = tuple(np.zeros((len(f),)) for _ in range(4))
             spec, meta = sp.make_1d(rng, layout="scalar", f=f, e=e1, moments=mom, depth_mode="deep")
             theta = 0.0
+        pristine = spec.copy(deep=True)
+        before = {k: np.array(v.values).copy() for k, v in spec.dataset.variables.items()}
         run.count("2d" if two_d else "1d")
         run.count("comp_" + comp)
         run.count("even" if L % 2 == 0 else "odd")
         t, z = ts_mod.surface_timeseries(comp, fs, L, spec, seed=seed)
         nfft = (int(L) // 2) * 2
         run.case("series", key=(case, comp, L, seed))
-        info = dict(component=comp, fs=fs, signal_length=L, seed=seed, two_d=two_d, f=f.tolist(), e=e1.tolist())
+        info = dict(component=comp, fs=fs, signal_length=L, seed=seed, two_d=two_d, f=f.tolist(), e=[None if x != x else float(x) for x in e1], directions=d.tolist() if two_d else None)
         if len(z) != len(t) or len(t) != nfft:
             run.violation("series and time axis differ in length (or not nfft samples)", dict(info, len_t=len(t), len_z=len(z), nfft=nfft))
             return
@@ -62,17 +80,22 @@ def run_case(run, drv, ts_mod, rng, case, max_len):
             run.violation("time axis is not spaced at the requested sampling rate starting at 0", info)
         # resampled spectrum (the code's own interpolation) -> model inputs
         freqs = np.linspace(0, 0.5 * fs, nfft // 2, endpoint=False)
-        rs = spec.interpolate_frequency(freqs)
+        for k, v in spec.dataset.variables.items():
+            a, b = np.array(v.values), before[k]
+            same = a.shape == b.shape and (np.array_equal(a, b, equal_nan=True) if a.dtype.kind == "f" else np.array_equal(a, b))
+            if not same:
+                run.violation("generating a time series changed the spectrum it was generated from", dict(info, variable=k))
+        rs = pristine.interpolate_frequency(freqs)
         om = rs.radian_frequency.values
         if two_d:
             area = rs.frequency_step.values[:, None] * rs.direction_step.values[None, :]
             th = rs.radian_direction.values
-            Ev = rs.variance_density.values
+            Ev = np.nan_to_num(rs.variance_density.values)
             shape = Ev.shape
         else:
             area = rs.frequency_step.values[:, None]
             th = np.array([0.0])
-            Ev = rs.variance_density.values[:, None]
+            Ev = np.nan_to_num(rs.variance_density.values)[:, None]
             shape = (len(freqs),)
         phases = np.random.default_rng(seed=seed).uniform(0, 2 * np.pi, shape).reshape(Ev.shape)
         area = area * np.ones_like(Ev)
@@ -102,13 +125,13 @@ def run_case(run, drv, ts_mod, rng, case, max_len):
         t3, z3 = ts_mod.surface_timeseries(comp, fs, L, spec, seed=seed + 1)
         if want_var > 0 and np.array_equal(z, z3):
             run.violation("different seeds give identical series", info)
-        c = rng.choice([4.0, 0.25, 9.0])
+        c = rng.choice([4.0, 0.25, 9.0, 1e-4, 1e-8, 1e6])
         if two_d:
             spec_c, _ = sp.make_2d(rng, layout="scalar", f=f, d=d, E=E * c, depth_mode="deep")
         else:
             spec_c, _ = sp.make_1d(rng, layout="scalar", f=f, e=e1 * c, moments=mom, depth_mode="deep")
         t4, z4 = ts_mod.surface_timeseries(comp, fs, L, spec_c, seed=seed)
-        if not np.allclose(z4, math.sqrt(c) * z, rtol=1e-10, atol=1e-12 * (1 + np.max(np.abs(z)))):
+        if not np.allclose(z4, math.sqrt(c) * z, rtol=1e-10, atol=1e-12 * math.sqrt(c) * np.max(np.abs(z))):
             run.violation("scaling the spectrum by c does not scale the series by sqrt(c)", dict(info, c=c))
         if case < 3:
             run.sample(dict(info, nfft=nfft, first_samples=z[:4].tolist(), variance=got_var, spectral_variance=want_var))
